@@ -303,6 +303,10 @@ impl Property for C09 {
                 }
             }
             sc.vfs.push(VNode::file("/w/sib.svh", "// sibling header\nsib;\n"));
+            // when the top file is itself part of the cycle, every one of the (at most 64+1) legal levels opens the k
+            // sibling headers again: the budget of opens that still counts as "bounded" grows with k
+            // (VERIF_SEED=48 run 616 tripped the fixed budget of 4096 with k=69 on the unchanged tree: 64 x 70 opens)
+            sc.knobs.open_budget = sc.knobs.open_budget.max(4096 + 70 * (k + 1));
             sc.family = "siblings".into();
         }
         // decoration: the same file present at several search locations (identical content), a directory listed twice
